@@ -8,7 +8,8 @@
 (*   tlc -simulate num=N -depth D -config GenTheta.cfg GenTheta.tla        *)
 (***************************************************************************)
 EXTENDS ThetaDesign, Json, IOUtils
-CONSTANTS Depth, OutDir
+CONSTANTS Depth
+OutDir == IOEnv.GEN_DIR   \* directory for the generated behaviours, supplied by the orchestrator
 VARIABLE hist
 gvars == <<theta, ret, empty, lgCur, seen, hist>>
 Step(op, h) == [op |-> op, h |-> h, theta |-> theta', n |-> Cardinality(ret'), empty |-> empty', lgCur |-> lgCur']
